@@ -57,8 +57,9 @@ func vh_C15_clientip() {
 
 // the real X-Forwarded-For style parser on the header shapes proxies really send: the client is
 // the first list element, with or without a space after the comma, with or without a port,
-// IPv4 or bracketed IPv6; garbage is an error, an absent header no address
-// verif: unwind=8 strlen=8
+// IPv4 or bracketed IPv6; garbage (empty list elements, lone brackets and colons included) is an
+// error and never a crash, an absent header no address
+// verif: unwind=8 strlen=8 also=C19
 func vh_C15_xff_parser() {
 	type tc struct {
 		header string
@@ -74,6 +75,15 @@ func vh_C15_xff_parser() {
 		{"[2001:db8::1]:443", net.ParseIP("2001:db8::1"), false},
 		{"2001:db8::1,10.0.0.1", net.ParseIP("2001:db8::1"), false},
 		{"unknown, 10.0.0.1", nil, true},
+		// degenerate values a client can send: never a crash, never an address
+		{",", nil, true},
+		{", 10.0.0.1", nil, true},
+		{" ", nil, true},
+		{"[", nil, true},
+		{"]", nil, true},
+		{"[]", nil, true},
+		{":", nil, true},
+		{"[::1", nil, true},
 		{"", nil, false},
 	}
 	c := cases[ndChoice("header-shape", len(cases))]
